@@ -437,4 +437,263 @@ Section Bsec.
         intros Hpl. inversion Hpl; subst st'. right; right. unfold here. cbn [fst snd bo po cnt ps inds parts blk]. reflexivity.
       + intros Hpl. inversion Hpl; subst st'. left. split; [exact Hroom|reflexivity].
   Qed.
+
+  Local Notation wfI := (wf I).
+  Local Notation wendI := (wend I).
+
+  Definition Cur (cs : cur) (c : sctx) (a : acc) : Prop :=
+    (po c = I /\ bo c = fst cs + bend (snd cs) /\ cnt c = N.of_nat (length (inds a))) \/
+    (po c <> I /\ bo c = fst cs /\ snd cs <> [] /\ po c = bend (snd cs)).
+
+  (* [em]: every part written so far with its physical block number; [g]: the block being filled *)
+  Record G (em : list (N * part)) (g : N) (c : sctx) (a : acc) : Prop := {
+    g_wf : forall g', wfI (0, []) (block_parts g' em);
+    g_cur : Cur (wendI (0, []) (block_parts g em)) c a;
+    g_le : forall x, In x em -> fst x <= g;
+    g_ps : inds a <> [] -> PAGE <= ps a }.
+
+  Lemma block_parts_app g em1 em2 : block_parts g (em1 ++ em2) = block_parts g em1 ++ block_parts g em2.
+  Proof. unfold block_parts. rewrite filter_app, map_app. reflexivity. Qed.
+  Lemma block_parts_one_same g q : block_parts g [(g, q)] = [q].
+  Proof. unfold block_parts. cbn [filter fst]. rewrite N.eqb_refl. reflexivity. Qed.
+  Lemma block_parts_one_other g g' q : g <> g' -> block_parts g' [(g, q)] = [].
+  Proof. intros H. unfold block_parts. cbn [filter fst]. destruct (N.eqb_spec g g'); [congruence|reflexivity]. Qed.
+  Lemma block_parts_above g em : (forall x, In x em -> fst x <= g) -> block_parts (g + 1) em = [].
+  Proof.
+    intros H. unfold block_parts. induction em as [|x em IH]; [reflexivity|]. cbn [filter].
+    destruct (N.eqb_spec (fst x) (g + 1)) as [E|_].
+    - pose proof (H x (or_introl eq_refl)). lia.
+    - apply IH. intros y Hy. apply H. right; exact Hy.
+  Qed.
+
+  (* placing an entry into the open part *)
+  Lemma G_here em g c a e :
+    G em g c a -> eok B I e -> G em g (fst (here (c, a) e)) (snd (here (c, a) e)).
+  Proof.
+    intros [H1 H2 H3 H4] [He1 He2]. unfold here. cbn [fst snd bo po cnt ps inds parts blk].
+    constructor; cbn [bo po cnt ps inds parts blk]; auto.
+    - destruct H2 as [(A & Bq & Cq)|(A & Bq & Cq & D)]; [left|right]; cbn [bo po cnt inds]; auto.
+      split; [exact A|]. split; [exact Bq|]. rewrite app_length. cbn [length]. lia.
+    - intros _. pose proof (align_pos (e_len e) He1). unfold PAGE in *. lia.
+  Qed.
+
+  (* emitting the open part [q] into block [g] *)
+  Lemma G_emit lo em g c a :
+    G em g c a -> Inv B I lo c a -> inds a <> [] ->
+    let q := mkPart (blk a) (bo c) (po c) (ps a) (inds a) (cnt c) in
+    let em' := em ++ [(g, q)] in
+    (forall g', wfI (0, []) (block_parts g' em')) /\
+    (forall x, In x em' -> fst x <= g) /\
+    fst (wendI (0, []) (block_parts g em')) = bo c /\
+    snd (wendI (0, []) (block_parts g em')) <> [] /\
+    bend (snd (wendI (0, []) (block_parts g em'))) = po c + ps a.
+  Proof.
+    intros [H1 H2 H3 H4] HInv Hne q em'.
+    pose proof (v_chain B I lo c a HInv) as Hch.
+    pose proof (chain_bend _ _ _ Hch Hne) as Hbend.
+    set (cs := wendI (0, []) (block_parts g em)) in *.
+    assert (Hstep : wstep_ok I cs q).
+    { unfold wstep_ok, q. cbn [p_pbo p_bbo].
+      destruct H2 as [(A & Bq & _)|(A & Bq & Cq & D)].
+      - rewrite A, N.eqb_refl. exact Bq.
+      - destruct (N.eqb_spec (po c) I); [congruence|]. auto. }
+    assert (Hbp : block_parts g em' = block_parts g em ++ [q]).
+    { unfold em'. rewrite block_parts_app, block_parts_one_same. reflexivity. }
+    split; [|split].
+    - intros g'. unfold em'. rewrite block_parts_app. destruct (N.eq_dec g g') as [<-|Hne'].
+      + rewrite block_parts_one_same. apply wf_app. split; [apply H1|]. cbn [wf]. split; [exact Hstep|exact Logic.I].
+      + rewrite (block_parts_one_other g g' q Hne'). rewrite app_nil_r. apply H1.
+    - intros x Hx. unfold em' in Hx. apply in_app_iff in Hx. destruct Hx as [Hx|[<-|[]]]; [auto|cbn [fst]; lia].
+    - rewrite Hbp. rewrite wend_app. fold cs. unfold wend at 1 2 3. cbn [fold_left].
+      unfold wnext, q. cbn [p_pbo p_bbo p_inds].
+      destruct H2 as [(A & Bq & _)|(A & Bq & Cq & D)].
+      + rewrite A, N.eqb_refl. cbn [fst snd]. repeat split; auto. rewrite <- A. exact Hbend.
+      + destruct (N.eqb_spec (po c) I); [congruence|]. cbn [fst snd]. repeat split.
+        * auto.
+        * destruct (snd cs); [congruence|discriminate].
+        * unfold bend. rewrite (last_idx_app2 _ _ Hne). exact Hbend.
+  Qed.
+
+  Definition glob (g0 : N) (p : part) : N * part := (g0 + p_blk p, p).
+  Definition EM (prev : list (N * part)) (g0 : N) (a : acc) : list (N * part) := prev ++ map (glob g0) (parts a).
+  Definition GG (prev : list (N * part)) (g0 : N) (c : sctx) (a : acc) : Prop := G (EM prev g0 a) (g0 + blk a) c a.
+
+  Lemma GG_here prev g0 c a e : GG prev g0 c a -> eok B I e -> GG prev g0 (fst (here (c, a) e)) (snd (here (c, a) e)).
+  Proof. intros H He. exact (G_here _ _ c a e H He). Qed.
+
+  Lemma bend_nil : bend [] = 0.
+  Proof. reflexivity. Qed.
+
+  (* split_blob inside a block: only when the blob index is full *)
+  Lemma GG_split_blob prev g0 lo c a :
+    GG prev g0 c a -> Inv B I lo c a -> icap I <= cnt c ->
+    GG prev g0 (fst (split_blob I (c, a))) (snd (split_blob I (c, a))).
+  Proof.
+    intros HG HInv Hfull. unfold split_blob. destruct (inds a) as [|i0 l0] eqn:E.
+    - cbn [fst snd]. destruct HG as [H1 H2 H3 H4]. constructor; auto.
+      destruct H2 as [(A & Bq & Cq)|(A & Bq & Cq & D)].
+      + rewrite E in Cq. cbn [length] in Cq. lia.
+      + left. cbn [po bo cnt]. split; [reflexivity|]. split; [lia|]. rewrite E. reflexivity.
+    - assert (Hne : inds a <> []) by (rewrite E; discriminate).
+      destruct (G_emit lo _ _ c a HG HInv Hne) as (W1 & W2 & W3 & W4 & W5).
+      cbn [fst snd]. unfold GG, EM. cbn [parts blk]. rewrite map_app, app_assoc. cbn [map]. unfold glob at 2. cbn [p_blk].
+      rewrite <- E. constructor; cbn [inds ps]; auto; [|congruence].
+      left. cbn [po bo cnt inds]. split; [reflexivity|]. split; [|reflexivity].
+      unfold EM in W3, W5. rewrite W3, W5. lia.
+  Qed.
+
+  (* split_blob followed by split_block: a fresh block *)
+  Lemma GG_new_block prev g0 lo c a :
+    GG prev g0 c a -> Inv B I lo c a ->
+    GG prev g0 (mkCtx 0 I 0) (mkAcc 0 [] (parts (snd (split_blob I (c, a)))) (blk a + 1)).
+  Proof.
+    intros HG HInv. unfold split_blob. destruct (inds a) as [|i0 l0] eqn:E.
+    - cbn [snd]. destruct HG as [H1 H2 H3 H4]. unfold GG, EM in *. cbn [parts blk].
+      rewrite N.add_assoc. constructor; cbn [inds]; auto; [| |congruence].
+      + rewrite (block_parts_above _ _ H3). left. cbn [po bo cnt inds length wend fold_left fst snd].
+        rewrite bend_nil. repeat split; reflexivity.
+      + intros x Hx. specialize (H3 x Hx). lia.
+    - assert (Hne : inds a <> []) by (rewrite E; discriminate).
+      destruct (G_emit lo _ _ c a HG HInv Hne) as (W1 & W2 & W3 & W4 & W5).
+      cbn [snd]. unfold GG, EM in *. cbn [parts blk]. rewrite map_app, app_assoc. cbn [map]. unfold glob at 2. cbn [p_blk].
+      rewrite <- E. rewrite N.add_assoc. constructor; cbn [inds]; auto; [| |congruence].
+      + rewrite (block_parts_above _ _ W2). left. cbn [po bo cnt inds length wend fold_left fst snd].
+        rewrite bend_nil. repeat split; reflexivity.
+      + intros x Hx. specialize (W2 x Hx). lia.
+  Qed.
+
+  Lemma GG_place prev g0 lo c a e c' a' :
+    GG prev g0 c a -> Inv B I lo c a -> eok B I e -> place B I 3 (c, a) e = Some (c', a') -> GG prev g0 c' a'.
+  Proof.
+    intros HG HInv He Hpl.
+    destruct (place_cases lo c a e (c', a') HInv He Hpl) as [[_ E]|[[Hfull E]|E]].
+    - pose proof (GG_here prev g0 c a e HG He) as H. rewrite <- E in H. exact H.
+    - pose proof (GG_split_blob prev g0 lo c a HG HInv Hfull) as H1.
+      destruct (split_blob I (c, a)) as [c1 a1]. cbn [fst snd] in H1.
+      pose proof (GG_here prev g0 c1 a1 e H1 He) as H. rewrite <- E in H. exact H.
+    - pose proof (GG_new_block prev g0 lo c a HG HInv) as H1.
+      pose proof (GG_here prev g0 _ _ e H1 He) as H. rewrite <- E in H. exact H.
+  Qed.
+
+  Lemma GG_place_all prev g0 lo es : forall c a c' a',
+    GG prev g0 c a -> Inv B I lo c a -> Forall (eok B I) es -> place_all B I (c, a) es = Some (c', a') ->
+    GG prev g0 c' a' /\ Inv B I lo c' a'.
+  Proof.
+    induction es as [|e es IH]; intros c a c' a' HG HInv Hes; cbn [place_all].
+    - intros H; inversion H; subst. split; assumption.
+    - inversion Hes as [|? ? He Hes']; subst.
+      destruct (place_ok B I HI HIB Hcap lo c a e HInv He) as (c1 & a1 & Hp & HI1). rewrite Hp.
+      intros H. apply (IH c1 a1 c' a'); auto. eapply GG_place; eauto.
+  Qed.
+
+  (* between batches: nothing open *)
+  Definition GB (em : list (N * part)) (g : N) (c : sctx) : Prop := G em g c (mkAcc 0 [] [] 0).
+
+  Lemma G_acc_irrelevant em g c a a' : inds a = [] -> inds a' = [] -> G em g c a -> G em g c a'.
+  Proof.
+    intros E E' [H1 H2 H3 H4]. constructor; auto; [|congruence].
+    destruct H2 as [(A & Bq & Cq)|H2]; [left|right; exact H2]. rewrite E in Cq. rewrite E'. auto.
+  Qed.
+
+  Lemma GG_seal prev g0 lo c a :
+    GG prev g0 c a -> Inv B I lo c a ->
+    GB (EM prev g0 (snd (seal_blob I (c, a)))) (g0 + blk (snd (seal_blob I (c, a)))) (fst (seal_blob I (c, a))).
+  Proof.
+    intros HG HInv. unfold seal_blob. destruct (inds a) as [|i0 l0] eqn:E.
+    - cbn [fst snd]. unfold GB. eapply G_acc_irrelevant; [exact E|reflexivity|exact HG].
+    - assert (Hne : inds a <> []) by (rewrite E; discriminate).
+      destruct (G_emit lo _ _ c a HG HInv Hne) as (W1 & W2 & W3 & W4 & W5).
+      pose proof (g_ps _ _ _ _ HG Hne) as Hps. pose proof (v_I B I lo c a HInv) as HIpo.
+      assert (Eem : EM prev g0 (mkAcc 0 [] (parts a ++ [mkPart (blk a) (bo c) (po c) (ps a) (i0 :: l0) (cnt c)]) (blk a)) =
+                    EM prev g0 a ++ [(g0 + blk a, mkPart (blk a) (bo c) (po c) (ps a) (inds a) (cnt c))]).
+      { unfold EM. cbn [parts]. rewrite map_app, app_assoc. cbn [map]. unfold glob at 2. cbn [p_blk]. rewrite E. reflexivity. }
+      destruct (icap I <=? cnt c); cbn [fst snd blk]; rewrite Eem; unfold GB; constructor; cbn [inds]; auto; try congruence.
+      + left. cbn [po bo cnt inds length]. split; [reflexivity|]. split; [|reflexivity]. rewrite W3, W5. lia.
+      + right. cbn [po bo]. split; [unfold PAGE in *; lia|]. split; [symmetry; exact W3|]. split; [exact W4|]. symmetry. exact W5.
+  Qed.
+
+  Lemma inv_start c : CtxInv I c -> Inv B I (bo c + po c) c (mkAcc 0 [] [] 0).
+  Proof.
+    intros [X1 X2 X3 X5].
+    constructor; cbn [ps inds parts blk]; try (intros q0 []; fail); auto using pa_0; try lia;
+      try congruence; try (simpl; lia); try constructor.
+  Qed.
+
+  Lemma split_G prev g c es c' ps' n :
+    GB prev g c -> CtxInv I c -> Forall (eok B I) es -> split B I c es = Some (c', ps', n) ->
+    GB (prev ++ map (glob g) ps') (g + n - 1) c'.
+  Proof.
+    intros HG Hc Hes. unfold split. destruct (icap I <=? cnt c); [discriminate|].
+    destruct (place_all B I (c, mkAcc 0 [] [] 0) es) as [[c1 a1]|] eqn:Hp; [|discriminate].
+    assert (HG0 : GG prev g c (mkAcc 0 [] [] 0)).
+    { unfold GG, EM. cbn [parts blk map]. rewrite app_nil_r, N.add_0_r. exact HG. }
+    destruct (GG_place_all prev g _ es c _ c1 a1 HG0 (inv_start c Hc) Hes Hp) as [HG1 HI1].
+    pose proof (GG_seal prev g _ c1 a1 HG1 HI1) as Hs.
+    destruct (seal_blob I (c1, a1)) as [c2 a2]. cbn [fst snd] in Hs.
+    intros H; inversion H; subst. unfold EM in Hs.
+    replace (g + (blk a2 + 1) - 1) with (g + blk a2) by lia. exact Hs.
+  Qed.
+
+  Lemma GB_init : GB [] 0 (init_ctx I).
+  Proof.
+    unfold GB, init_ctx. constructor; cbn [inds]; try (intros x []; fail); try congruence.
+    - intros g'. exact Logic.I.
+    - left. cbn [po bo cnt inds length block_parts filter map wend fold_left fst snd]. rewrite bend_nil. repeat split; reflexivity.
+  Qed.
+
+  Lemma split_batches_G bs : forall prev g c c' out,
+    GB prev g c -> CtxInv I c -> Forall (Forall (eok B I)) bs -> split_batches B I c bs = Some (c', out) ->
+    forall g', wfI (0, []) (block_parts g' (prev ++ globalize g out)).
+  Proof.
+    induction bs as [|b bs IH]; intros prev g c c' out HG Hc Hbs; cbn [split_batches].
+    - intros H; inversion H; subst. cbn [globalize]. rewrite app_nil_r. exact (g_wf _ _ _ _ HG).
+    - inversion Hbs as [|? ? Hb Hbs']; subst.
+      destruct (split_ok B I HI HIB Hcap c b Hc Hb) as (c1 & ps1 & n1 & Hs & Hc1 & _).
+      rewrite Hs. destruct (split_batches B I c1 bs) as [[c2 rest]|] eqn:Hs2; [|discriminate].
+      intros H; inversion H; subst. cbn [globalize]. rewrite app_assoc.
+      apply (IH _ _ c1 c' rest); auto. eapply split_G; eauto.
+  Qed.
+
+  (* every physical block, over any sequence of batches, is well chained *)
+  Theorem split_batches_chained bs c out :
+    Forall (Forall (eok B I)) bs -> split_batches B I (init_ctx I) bs = Some (c, out) ->
+    forall g, wfI (0, []) (block_parts g (globalize 0 out)).
+  Proof.
+    intros Hbs Hs g. pose proof (split_batches_G bs [] 0 (init_ctx I) c out GB_init (ctx_init B I HI HIB Hcap) Hbs Hs g) as H.
+    exact H.
+  Qed.
+
+  Lemma globalize_part_ok bs : forall c c' out g,
+    CtxInv I c -> Forall (Forall (eok B I)) bs -> split_batches B I c bs = Some (c', out) ->
+    forall x, In x (globalize g out) -> part_ok B I (snd x).
+  Proof.
+    induction bs as [|b bs IH]; intros c c' out g Hc Hbs; cbn [split_batches].
+    - intros H; inversion H; subst. intros x [].
+    - inversion Hbs as [|? ? Hb Hbs']; subst.
+      destruct (split_ok B I HI HIB Hcap c b Hc Hb) as (c1 & ps1 & n1 & Hs & Hc1 & Hok & _).
+      rewrite Hs. destruct (split_batches B I c1 bs) as [[c2 rest]|] eqn:Hs2; [|discriminate].
+      intros H; inversion H; subst. cbn [globalize]. intros x Hx. apply in_app_iff in Hx. destruct Hx as [Hx|Hx].
+      + apply in_map_iff in Hx. destruct Hx as [p [<- Hp]]. cbn [snd]. rewrite Forall_forall in Hok. auto.
+      + eapply (IH c1 c' rest); eauto.
+  Qed.
+
+  (* C07, scan exactness: whatever sequence of batches the flusher was given, for every physical block that
+     received entries: what BlockScanner + the regress check read back from it - over whatever the block held before,
+     as long as that is older - is exactly the list of entries written into it, in order, at the addresses the indexer
+     was given *)
+  Theorem scan_exact bs c out g stale :
+    Forall (Forall (eok B I)) bs -> split_batches B I (init_ctx I) bs = Some (c, out) ->
+    let ps := block_parts g (globalize 0 out) in
+    ps <> [] ->
+    nondec 0 (all_infos ps) ->
+    (forall o l i x, stale o = Some l -> In i l -> In x (all_infos ps) -> i_seq i < n_seq x) ->
+    recover_block B I (rd (written I ps) stale) = all_infos ps.
+  Proof.
+    intros Hbs Hs ps Hne Hnd Hst.
+    apply (scan_written B I HI HIB Hcap); auto.
+    - exact (split_batches_chained bs c out Hbs Hs g).
+    - apply Forall_forall. intros p Hp. unfold ps, block_parts in Hp. apply in_map_iff in Hp.
+      destruct Hp as [x [<- Hx]]. apply filter_In in Hx. destruct Hx as [Hx _].
+      exact (globalize_part_ok bs _ c out 0 (ctx_init B I HI HIB Hcap) Hbs Hs x Hx).
+  Qed.
 End Bsec.
